@@ -91,7 +91,7 @@ Record Inv (cf : cfg) (s : state) : Prop := {
   v_sent : forall c, In c (g_ready_sent s) -> unproc (c_es cf) (g_qproc s) c = [];
   v_keys : forall m, In m (members s) ->
              match m_id m with Some i => m_key m = i | None => m_key m = c_n cf end;
-  v_mem_nodup : NoDup (map m_key (members s));
+  v_mem_nodup : NoDup (wait_ids (members s) ++ new_ids (members s));
   v_started : forall x, In x (starts (trace s)) <-> In x (g_finished s) \/ In x (wait_ids (members s));
   v_fin_wait : forall x, In x (g_finished s) -> ~ In x (wait_ids (members s));
   v_fin_nodup : NoDup (g_finished s);
@@ -106,7 +106,9 @@ Record Inv (cf : cfg) (s : state) : Prop := {
   v_srem : s_err s = None -> s_rem s + length (g_finished s) = c_n cf;
   v_qrem : q_rem s + length (g_qproc s) = c_n cf;
   v_errs : NoDup (errs s) /\ incl (errs s) (g_finished s);
-  v_limit : eff_limit cf <> 0 -> length (members s) <= eff_limit cf
+  v_limit : eff_limit cf <> 0 -> length (members s) <= eff_limit cf;
+  v_alive : s_alive s = rx_open (ready s);
+  v_none : length (filter (fun m => is_none (m_id m)) (members s)) <= (if w_ian (w s) then 1 else 0)
 }.
 
 (** ** List and trace helpers *)
@@ -214,7 +216,7 @@ Qed.
 
 Lemma is_waiting_spec s i : is_waiting s i = true <-> In i (wait_ids (members s)).
 Proof.
-  unfold is_waiting. rewrite existsb_exists, in_wait_ids. split.
+  unfold is_waiting, is_waiting_b. rewrite existsb_exists, in_wait_ids. split.
   - intros [m [Hm H]]. exists m. destruct (m_id m) as [j|]; destruct (m_st m); try discriminate.
     apply Nat.eqb_eq in H. subst. auto.
   - intros [m [Hm [Hi Hs]]]. exists m. split; [exact Hm|]. rewrite Hi, Hs. apply Nat.eqb_refl.
